@@ -246,7 +246,7 @@ def check (op : OpObs) (pre post : Views) (seen : Array Bool) : List Fail :=
     match view pre vid with
     | some u =>
       let pos := u.ch * i + c
-      if 0 ≤ pos ∧ pos < u.len then mk ["C14"] "chan-sample" s!"ch={u.ch} c={c} i={i} r={r} want={u.cells[pos.toNat]?}" (r == u.cells[pos.toNat]?)
+      if 0 ≤ pos ∧ pos < u.len then mk ["C14", "C12"] "chan-sample" s!"ch={u.ch} c={c} i={i} r={r} want={u.cells[pos.toNat]?}" (r == u.cells[pos.toNat]?)
       else mk ["C14"] "chan-sample-index-panics" s!"ch={u.ch} c={c} i={i} r={r}" (r == none)
     | none => []
   | .chanSet vid c i v outcome =>
@@ -255,7 +255,8 @@ def check (op : OpObs) (pre post : Views) (seen : Array Bool) : List Fail :=
       let pos := u.ch * i + c
       if 0 ≤ pos ∧ pos < u.len then
         mk ["C14"] "chan-set-ok" s!"outcome={outcome}" (outcome == "ok") ++
-        frameFails ["C14"] "chan-set-that-sample-only" pre post seen [(u.blk, u.off + pos.toNat, v)] (detail := s!"c={c} i={i} v={v}")
+        -- (a store through a channel view is a write: which views see it is also C12's clause)
+        frameFails ["C14", "C12"] "chan-set-that-sample-only" pre post seen [(u.blk, u.off + pos.toNat, v)] (detail := s!"c={c} i={i} v={v}")
       else mk ["C14"] "chan-set-index-panics" s!"outcome={outcome}" (isPanicOutcome outcome) ++
         frameFails ["C14"] "chan-set-panic-unchanged" pre post seen []
     | none => []
